@@ -7,10 +7,12 @@ use sqlgrep::parsing::verif_hooks::{
     tokenize, BinaryOperators, Keyword, Operator, Parser, ParserColumnDefinition, ParserError, ParserErrorType,
     ParserExpressionTree, ParserExpressionTreeData, ParserJoinClause, ParserToken, Token, UnaryOperators,
 };
-use sqlgrep::parsing::ParserOperationTree;
+use sqlgrep::parsing::verif_hooks::{ConvertParserTreeError, ConvertParserTreeErrorType};
+use sqlgrep::parsing::{CommonParserError, ParserOperationTree};
+use sqlgrep::Statement;
 
-use crate::extract::gen_def;
-use crate::queries::{gen_query, gen_schema, QueryOpts};
+use crate::extract::{def_sexp, gen_def};
+use crate::queries::{gen_query, gen_schema, stmt_sexp, QueryOpts};
 use crate::util::{catch, hexs, value_sexp, vtype_sexp, Caught, Rng};
 
 // ---------------------------------------------------------------------------------------------
@@ -310,6 +312,77 @@ pub fn run_parser(tokens: Vec<ParserToken>) -> (String, String) {
 
 pub fn tokenize_caught(text: &str) -> Caught<Result<Vec<ParserToken>, ParserError>> {
     catch(|| tokenize(text))
+}
+
+// ---------------------------------------------------------------------------------------------
+// lowered statements (`stmt` cases): the statement `parsing::parse` returns, in the encoding the engine / extraction
+// models already read (`queries::stmt_sexp`, `extract::def_sexp`) plus FROM / join / table and column names
+// ---------------------------------------------------------------------------------------------
+
+fn from_sexp(from: &str, file: &Option<String>, join: Option<&sqlgrep::model::JoinClause>) -> String {
+    format!("{} {} {}", hexs(from), opt_str(file), match join {
+        None => "nojoin".to_owned(),
+        Some(j) => format!("(join {} {} {} {} {})", hexs(&j.joined_table), hexs(&j.joined_filename), hexs(&j.joined_column),
+                           hexs(&j.joiner_column), if j.is_outer { 1 } else { 0 }),
+    })
+}
+
+fn lowered1(s: &Statement) -> String {
+    match s {
+        Statement::Select(q) => format!("(lowered {} {})", stmt_sexp(s).unwrap_or_default(), from_sexp(&q.from, &q.filename, q.join.as_ref())),
+        Statement::Aggregate(a) => format!("(lowered {} {})", stmt_sexp(s).unwrap_or_default(), from_sexp(&a.from, &a.filename, a.join.as_ref())),
+        Statement::CreateTable(td) => format!("(table {} {} (names{}))", hexs(&td.name), def_sexp(td),
+                                              td.columns.iter().map(|c| format!(" {}", hexs(&c.name))).collect::<String>()),
+        Statement::Multiple(_) => "(multiple)".to_owned(),
+    }
+}
+
+pub fn lowered_sexp(s: &Statement) -> String {
+    match s {
+        Statement::Multiple(ss) => format!("(multiple{})", ss.iter().map(|s| format!(" {}", lowered1(s))).collect::<String>()),
+        s => lowered1(s),
+    }
+}
+
+pub fn convert_err_sexp(e: &ConvertParserTreeError) -> String {
+    let kind = match &e.error {
+        ConvertParserTreeErrorType::UndefinedOperator(o) => format!("(UndefinedOperator {})", op_sexp(o)),
+        ConvertParserTreeErrorType::UndefinedFunction(n) => format!("(UndefinedFunction {})", hexs(n)),
+        ConvertParserTreeErrorType::InvalidJoinerTable(n) => format!("(InvalidJoinerTable {})", hexs(n)),
+        other => format!("{:?}", other),
+    };
+    format!("cerr {} {} {}", e.location.line, e.location.column, kind)
+}
+
+/// `parsing::parse(text)` rendered for the `stmt` case kind; (answer, result kind)
+pub fn run_parse(text: &str) -> (String, String) {
+    match catch(|| sqlgrep::parsing::parse(text)) {
+        Caught::Done(Ok(s)) => (format!("ok {}", lowered_sexp(&s)), match &s {
+            Statement::Select(_) => "select", Statement::Aggregate(_) => "aggregate", Statement::CreateTable(_) => "create", Statement::Multiple(_) => "multiple",
+        }.to_owned()),
+        Caught::Done(Err(CommonParserError::ParserError(e))) => (format!("p{}", parser_err_sexp(&e)), format!("perr-{}", err_kind_name(&e.error))),
+        Caught::Done(Err(CommonParserError::ConvertParserTreeError(e))) => {
+            let s = format!("{:?}", e.error);
+            (convert_err_sexp(&e), format!("cerr-{}", s.split(|c: char| !c.is_alphanumeric()).next().unwrap_or("")))
+        }
+        Caught::Panic(_) => ("panic".to_owned(), "panic".to_owned()),
+    }
+}
+
+/// the `Regex::new` oracle for every string token of the vector
+pub fn regex_oracle(tokens: &[ParserToken]) -> String {
+    let mut seen: Vec<&String> = Vec::new();
+    let mut s = String::from("(rx");
+    for t in tokens {
+        if let Token::String(p) = &t.token {
+            if !seen.contains(&p) {
+                seen.push(p);
+                s.push_str(&format!(" ({} {})", hexs(p), if regex::Regex::new(p).is_ok() { 1 } else { 0 }));
+            }
+        }
+    }
+    s.push(')');
+    s
 }
 
 // ---------------------------------------------------------------------------------------------
